@@ -263,3 +263,20 @@ MUTATIONS += [
     ("channel-compress-flag-without-compression", ["C05", "C19"], CH, "            data = zlib.compress(data, self.COMPRESSION_LEVEL)", "            _z = zlib.compress(data, self.COMPRESSION_LEVEL)\n            data = _z if len(_z) < len(data) else data"),
     ("stream-eagain-not-retried", ["C05"], ST, "                if get_exc_errno(ex) in retry_errnos:\n                    # windows just has to be a bitch\n                    continue", "                if get_exc_errno(ex) == errno.EWOULDBLOCK + 1000:\n                    continue"),
 ]
+
+RG = "rpyc/utils/registry.py"
+MUTATIONS += [
+    # ---- C18: registry
+    ("registry-pruning-inverted", ["C18"], RG, "            if t < oldest:", "            if t > oldest:"),
+    ("registry-query-not-uppercasing", ["C18"], RG, "        name = name.upper()\n        self.logger.debug(\"querying for %r\", name)", "        self.logger.debug(\"querying for %r\", name)"),
+    ("registry-sorted-dropped", ["C18"], RG, "        all_servers = sorted(self.services[name].items(), key=lambda x: x[1])", "        all_servers = list(self.services[name].items())"),
+    ("registry-is-new-test-removed", ["C18"], RG, "        if is_new:\n            try:", "        if True:\n            try:"),
+    ("registry-unregister-wrong-host", ["C18"], RG, "            self._remove_service(name, (host, port))", "            for _h in set(a[0] for a in self.services.get(name, {})):\n                if name in self.services:\n                    self._remove_service(name, (_h, port))"),
+    ("registry-load-unguarded", ["C18"], RG, "            try:\n                magic, cmd, args = brine.load(data)\n            except Exception:\n                continue", "            magic, cmd, args = brine.load(data)"),
+    ("registry-magic-check-removed", ["C18"], RG, "            if magic != \"RPYC\":", "            if False:"),
+    ("registry-prune-boundary-le", ["C18"], RG, "            if t < oldest:", "            if t <= oldest:"),
+    ("registry-register-keeps-case", ["C18"], RG, "            self._add_service(name.upper(), (host, port))", "            self._add_service(name, (host, port))"),
+    ("registry-keepalive-not-refreshing", ["C18"], RG, "        self.services[name][addrinfo] = time.time()", "        self.services[name].setdefault(addrinfo, time.time())"),
+    ("registry-cmd-errors-unguarded", ["C18"], RG, "            try:\n                reply = cmdfunc(addrinfo[0], *args)\n            except Exception:\n                self.logger.exception('error executing function')\n            else:\n                self._send(brine.dump(reply), addrinfo)",
+     "            reply = cmdfunc(addrinfo[0], *args)\n            self._send(brine.dump(reply), addrinfo)"),
+]
